@@ -21,6 +21,8 @@ mod d_datafile;
 mod d_demohl;
 #[path = "../../harness/src/d_gamenet.rs"]
 mod d_gamenet;
+#[path = "../../harness/src/d_map.rs"]
+mod d_map;
 #[path = "../../harness/src/d_net.rs"]
 mod d_net;
 #[path = "../../harness/src/d_recv.rs"]
@@ -41,6 +43,11 @@ mod d_snap;
 mod d_teehist;
 #[path = "../../harness/src/util.rs"]
 mod util;
+
+/// `d_map.rs` names its sibling as `crate::domains::d_datafile` (the native harness's generated module)
+mod domains {
+    pub(crate) use crate::d_datafile;
+}
 
 use std::io::BufRead;
 
@@ -64,6 +71,7 @@ fn main() {
         "teehist" => d_teehist::domain(),
         "demo" => d_demo::domain(),
         "datafile" => d_datafile::domain(),
+        "map" => d_map::domain(),
         "browse" => d_browse::domain(),
         "gamenet" => d_gamenet::domain(),
         "recv" => d_recv::domain(),
